@@ -22,7 +22,9 @@ inline Poly pdivs(const Poly &a, const Real &c) {
 }
 inline std::vector<std::pair<size_t, size_t>> factor_windows(size_t n, bool used) {
   if (!used) return {{0, n}};
-#ifdef ALL_FACTOR_WINDOWS
+#ifdef LARGE
+  return windows_sample(n, 5, 11);
+#elif defined(ALL_FACTOR_WINDOWS)
   return windows(n);
 #else
   std::vector<std::pair<size_t, size_t>> w{{0, n}, {0, 0}};
@@ -34,8 +36,9 @@ inline std::vector<std::pair<size_t, size_t>> factor_windows(size_t n, bool used
 #endif
 }
 template <class EA, class EB, size_t oa, size_t ob>
-void pair_case(size_t n, std::pair<size_t, size_t> wa) {
+void pair_case(size_t n, std::pair<size_t, size_t> wa, std::vector<std::pair<size_t, size_t>> wbs = {}) {
   auto &En = Engine::get();
+  if (wbs.empty()) wbs = windows(n);
   auto g = gridpoints(n);
   Grid<Real> grid(g);
   Real c = Real::var("c"), k = Real::var("k");
@@ -43,7 +46,7 @@ void pair_case(size_t n, std::pair<size_t, size_t> wa) {
   auto a = mkspline<oa>(grid, wa.first, wa.second, "a");
   auto a2 = mkspline<oa>(grid, wa.first, wa.second, "d");
   bool ctl = false;
-  for (auto wb : windows(n)) {
+  for (auto wb : wbs) {
     auto b = mkspline<ob>(grid, wb.first, wb.second, "b");
     for (auto wv : factor_windows(n, EA::uses_factor || EB::uses_factor)) {
       auto v = mkspline<FO>(grid, wv.first, wv.second, "v");
@@ -105,7 +108,25 @@ void add_pair_o(std::vector<Case> &cases) {
   else if constexpr (oa > 0)
     add_pair_o<EA, EB, oa - 1, MAXO>(cases);
 }
-#ifdef FIXED_GRID
+#ifdef LARGE
+// large structural sizes: sampled window pairs of a LARGE-point fixed rational grid (coefficients symbolic)
+#ifndef NSAMPLE
+#define NSAMPLE 8
+#endif
+template <class EA, class EB, size_t oa, size_t ob>
+void add_pair_large(std::vector<Case> &cases) {
+  auto wbs = windows_sample(LARGE, NSAMPLE, 21 + oa);
+  for (auto wa : windows_sample(LARGE, NSAMPLE, 22 + ob))
+    cases.push_back({std::string("bilin-large/") + EA::name + "," + EB::name + "/o" + std::to_string(oa) + "x" + std::to_string(ob) + "/n" + std::to_string(LARGE) + "/wa" + W(wa),
+                     [=] { pair_case<EA, EB, oa, ob>(LARGE, wa, wbs); }});
+}
+template <class EA, class EB>
+void add_pair(std::vector<Case> &cases) {
+  add_pair_large<EA, EB, 1, 1>(cases);
+  add_pair_large<EA, EB, 2, 1>(cases);
+  add_pair_large<EA, EB, 0, 3>(cases);
+}
+#elif defined(FIXED_GRID)
 static constexpr std::array<size_t, 5> HO{5, 6, 7, 8, 10};
 template <class EA, class EB, size_t oa, size_t ob>
 void add_pair_one(std::vector<Case> &cases) {
